@@ -101,4 +101,83 @@ theorem C03_spelling_independent_partial (o : Opts) (ts ts' : List T) (h : T.oks
   rw [C03_html_partial o ts h hne gas hg, C03_html_partial o ts' h' hne' gas hg']
   simp only [htmlOf, htmlKids_shapes, hs, and_self]
 
+/-! ### Non-vacuity: a forest of depth 3 in two spellings -/
+
+def L (s : String) : Str := s.toList
+
+/-- heading; two-line paragraph with inert punctuation (indented first line); a quote ("> ") holding a
+    heading with a closing `#` run, a nested quote (">") holding a paragraph and a rule, and a rule `- - -`;
+    a rule `___` -/
+def sample : List T := [
+  .heading 1 (L "Title: a_b * c") (atx 1 (L "Title: a_b * c")),
+  .para [L "  first line, 3.14) x | y # z\n", L "second & AT&T <, \"q\"\n"],
+  .quote false [
+    .heading 2 (L "Inner") (L "  ## Inner ##  \n"),
+    .quote true [.para [L "deep text\n"], .hr (L "***\n")],
+    .hr (L " - - -\n")],
+  .hr (L "___\n")]
+
+/-- the same tree in another spelling: indented heading with several spaces and a closing `#`, other
+    paragraph indentation, the quote markers swapped, other rule characters and lengths -/
+def sample' : List T := [
+  .heading 1 (L "Title: a_b * c") (L "   #   Title: a_b * c #\n"),
+  .para [L "first line, 3.14) x | y # z\n", L "   second & AT&T <, \"q\"\n"],
+  .quote true [
+    .heading 2 (L "Inner") (L "## Inner\n"),
+    .quote false [.para [L "  deep text\n"], .hr (L "_ _ _\n")],
+    .hr (L "*****\n")],
+  .hr (L "  ---\n")]
+
+theorem sample_ok : T.oks sample = true := by decide +kernel
+theorem sample'_ok : T.oks sample' = true := by decide +kernel
+
+/-- what the writer produces -/
+example : writes sample =
+    [L "# Title: a_b * c\n", L "\n", L "  first line, 3.14) x | y # z\n", L "second & AT&T <, \"q\"\n", L "\n",
+     L ">   ## Inner ##  \n", L "> \n", L "> >deep text\n", L "> >\n", L "> >***\n", L "> \n", L ">  - - -\n", L "\n",
+     L "___\n"] := by decide +kernel
+example : writes sample' =
+    [L "   #   Title: a_b * c #\n", L "\n", L "first line, 3.14) x | y # z\n", L "   second & AT&T <, \"q\"\n", L "\n",
+     L ">## Inner\n", L ">\n", L ">>   deep text\n", L ">> \n", L ">> _ _ _\n", L ">\n", L ">*****\n", L "\n",
+     L "  ---\n"] := by decide +kernel
+
+def sampleHtml : Str :=
+  L "<h1>Title: a_b * c</h1>\n<p>first line, 3.14) x | y # z\nsecond &amp; AT&amp;T &lt;, \"q\"</p>\n<blockquote>\n<h2>Inner</h2>\n<blockquote>\n<p>deep text</p>\n<hr />\n</blockquote>\n<hr />\n</blockquote>\n<hr />\n"
+
+/-- the HTML written directly from the tree (both spellings: same tree) -/
+example : htmlOf {} sample = sampleHtml ∧ htmlOf {} sample' = sampleHtml ∧ shapes sample = shapes sample' := by
+  refine ⟨?_, ?_, ?_⟩ <;> decide +kernel
+
+example : needs sample = 176 ∧ needs sample' = 176 := by decide +kernel
+
+/-- instance of `C03_html_partial`: the renderer on the written text gives that HTML … -/
+example : Config.renderHtml {} 176 (writes sample).flatten = some sampleHtml := by
+  rw [C03_html_partial {} sample sample_ok (by decide) 176 (by decide +kernel)]
+  decide +kernel
+
+/-- … and on the other spelling (instance of `C03_spelling_independent_partial`) -/
+example : Config.renderHtml {} 176 (writes sample').flatten = Config.renderHtml {} 176 (writes sample).flatten :=
+  (C03_spelling_independent_partial {} sample sample' sample_ok sample'_ok (by decide) (by decide +kernel) 176
+    (by decide +kernel) (by decide +kernel)).2
+
+/-- the same two facts by evaluating the model on the text, without the theorem (the real renderer gives this
+    string for both texts, too) -/
+example : Config.renderHtml {} 176 (writes sample).flatten = some sampleHtml ∧
+    Config.renderHtml {} 176 (writes sample').flatten = some sampleHtml := by
+  refine ⟨?_, ?_⟩ <;> decide +kernel
+
+/-- instance of `C03_block_phase_partial`, with the entries shown through the C05 digest
+    (kind, line, origin; kinds: 1 heading, 2 quote, 4 thematic break, 9 paragraph) -/
+example : Props.C05.digestR (blockPhase { types := Props.C14.defaultTypes } 176 (writes sample)) =
+    some ([(1, 1, 1), (9, 3, 3), (2, 6, 6), (1, 6, 6), (2, 8, 8), (9, 8, 8), (4, 10, 10), (4, 12, 12), (4, 14, 14)], true, 0) := by
+  rw [C03_block_phase_partial true sample sample_ok (by decide) 176 (by decide +kernel)]
+  decide +kernel
+
+/-- the predicate is not trivially true: a setext underline, emphasis, a list marker, a heading line whose
+    text is not the stated one, a rule line that is a setext underline candidate `===`, an empty quote,
+    ">" before a line that begins with a space -/
+example : [T.para [L "a\n", L "---\n"], T.para [L "*a*\n"], T.para [L "- a\n"], T.heading 1 (L "x") (L "# y\n"),
+    T.hr (L "===\n"), T.quote false [], T.quote true [T.para [L " a\n"]]].map T.ok = List.replicate 7 false := by
+  decide +kernel
+
 end Mistletoe.Props.C03
